@@ -44,10 +44,19 @@ def run(tier):
                         dict(at=10 ** 6, op='resume')]
         j['max_steps'] = 900
         jobs.append(j)
+    # reruns INSIDE the item sub-workflows of a with-items task, issued back to back (both items are re-executing at
+    # the same time; the parent task must wait for all of them and then continue as if they had succeeded at once)
+    from harness import gen, engrun
+    for n_items in (2, 3):
+        for k, pol in enumerate(engrun.POLICIES[1:]):
+            P = gen.items_over_subworkflows(n_items, conc=(None if k % 2 else n_items))
+            ops = [dict(at=300, op='rerun', reset=True, target='r/t0#0@0.0/sub1x0#0')]
+            ops += [dict(rel=0, op='rerun', reset=True, target='r/t0#0@%d.0/sub1x0#0' % i) for i in range(1, n_items)]
+            jobs.append(dict(prog=P, scheduler=('default', 'legacy')[k % 2], policy=pol, seed=k + 1, label='itemsub%d' % n_items, ops=ops, max_steps=900))
     return ec.run_property(PID, tier, jobs,
                            'generated programs (plain, with-items, join, sub-workflow and retry tasks) run to rest, then an ERROR task is rerun '
                            '(reset on/off), skipped, or rerun twice, with a new outcome for the new attempt, and run to rest again; non-trivial = '
-                           'distinct runs with an accepted rerun/skip',
+                           'distinct runs with an accepted rerun/skip; fixed histories: reruns inside all item sub-workflows of a with-items task issued back to back',
                            _nontrivial, prescribed=True)
 
 
